@@ -71,6 +71,18 @@ claimed = {
    'Seeded deterministic simulation of the real filter with zmodem enabled between a scripted remote rz/sz and a scripted local helper behind the os/exec substitute: helper behaviours (normal, exits non-zero, exits at once, never writes, writes late, missing from PATH) x server behaviours (finishes, cancels before/after the helper starts, keeps sending, goes quiet) x upload with/without files and download x Ctrl-C early/late x headers accompanied by a cancel sequence or "cannot open"; the 100 ms start delay, 500 ms quiet timer and 20 s timeouts run on the fake clock. Oracles: matching helper and working directory, started at most once, traffic bridged both ways, server told to cancel whenever the session did not complete, a silent helper cancelled or killed, vetoed headers start nothing and are shown unmodified, and 26 s later typed input reaches the server and a printed probe reaches the terminal.',
    'The start header arrives within one read (the detector works per read). The helper is a scripted stand-in, not lrzsz.',
    'deterministic simulation with scripted child process and remote peer, fake-clock timers, seeded schedules', '§4 C19'),
+ 'C03': ('exploration',
+   'Seeded deterministic simulation of a real trzszBuffer between a producer task (chosen segmentation, pauses on the fake clock) and a consumer task issuing tape-chosen sequences of strict line reads, junk-tolerant line reads and sized binary reads (or clean Windows-framed reads). Streams of up to 12 bytes over the alphabet that matters are run under ALL 2^(n-1) segmentations within one evaluation; longer structured or random streams under four random segmentations of increasing density. Oracle: a small reference parser written from the statement (values, order, nothing lost/duplicated/merged, Ctrl-C interrupts; results compared up to the first interruption) plus promptness: after a pause in which the simulated world went quiet, every read whose answer had fully arrived has returned.',
+   'The Windows reader takes part with clean framing only here; its noise behaviour is C16. The segmentation space of a stream is an input dimension; what simulation adds is the producer/consumer interleaving and the quiescence-based promptness check.',
+   'deterministic simulation of producer/consumer tasks around the real buffer; reference-parser oracle; exhaustive segmentation for short streams', '§4 C03'),
+ 'C16': ('exploration',
+   'Seeded deterministic simulation feeding the real recvCheck of a trzszTransfer (tmux junk-tolerant reader or Windows-console reader) protocol lines rendered with generated noise in tape-chosen segments (1 byte upwards) with pauses. tmux grammar: CR LF at any position (inside the marker, inside a status string, right before the terminator), unrelated text in front of the marker (never the expected marker itself), status control strings of the captured shape anywhere. Windows grammar: CSI sequences anywhere (including ones containing "!"), padding, CR LF, wrap with re-print, home pre-print, and a bare cursor move before an equal character (must be kept); a line feed plus cursor move that is not followed by a re-print is not generated. Optional Ctrl-C anywhere. Oracle: every payload comes back exactly; Ctrl-C inside a line interrupts.',
+   'Noise grammars are written from the statement and the strings captured in the repository tests; nothing beyond them is asserted. System-level transfers through tmux-mode relays are exercised by C01/C14 without inserted wraps.',
+   'deterministic simulation with generated noise grammars and seeded segmentation; exact payload equality oracle', '§4 C16'),
+ 'C20': ('exploration',
+   'Seeded deterministic simulation of a real textProgressBar driven concurrently by a stepper task (names of every width class, sizes 0..2^62 and negative, repeats, regressions, overshoot, clock gaps 0 / 1 ms / 199-201 ms / 3 s / 5 h on the fake clock) and a resizer/pauser task (widths 1-500, pause on/off), with optional tmux pane width, tmux %output framing and colour pair. Oracle on every line the bar writes: display width (control sequences removed, tmux framing undone, runewidth cluster-aware measure) <= the largest width in force since the previous line, for widths >= 5; percentages within 0..100 and non-decreasing within a file; a panic or an endless render (no progress for 90 s of wall time) is attributed to the run and reported.',
+   'The width bound as a function of (state, width) is a pure function and is sampled, not enumerated; what simulation adds is the clock-derived fields, the concurrent resize/pause and impossible step values. The monitor also runs inside C12 (percentages on the terminal).',
+   'deterministic simulation of concurrent stepper/resizer tasks on a fake clock around the real progress bar; width and percentage monitors', '§4 C20'),
 }
 pending_reason = 'check not built yet in this session (deterministic simulation planned, see DESIGN.md §4); not claimed'
 checks = []
